@@ -69,8 +69,8 @@ def Pool.step (p : Pool) : POp → Pool × List PEv
   | .put w expired =>
     if p.closed then ({ p with created := p.created - 1, busy := p.busy.erase w }, [.chanClosed w])
     else
-      let (p1, evs) := p.gcLocked expired
-      ({ p1 with free := p1.free ++ [w], busy := p1.busy.erase w }, evs)
+      let p1 := (p.gcLocked expired).1
+      ({ p1 with free := p1.free ++ [w], busy := p1.busy.erase w }, (p.gcLocked expired).2)
   | .gc expired => p.gcLocked expired
   | .close =>
     ({ p with created := p.created - p.free.length, free := [], closed := true }, p.free.map PEv.chanClosed)
